@@ -45,7 +45,8 @@ CLAIMED = {
             "read_channel_chunk_for_index against Python/NumPy indexing semantics over all shapes x requests; every "
             "shape with all its requests replayed into lazily opened and eagerly read files",
             "Exhaustive model checking within bounds (<=3-4 segments, chunk sizes <=3, <=3 chunks, truncated final "
-            "chunk, channel absent per segment; all windows, slices, indices) plus spec->code conformance of every "
+            "chunk, channel absent per segment; all windows, slices, indices; plus long shapes of 101-230 segments "
+            "with requests around the head and the tail, read after the other channel) plus spec->code conformance of every "
             "shape x request, lazy and eager, over random types/layouts/byte orders.",
             "Trusted: TLC, TdmsData.AbsWindow/SliceIndices/AbsIndex as transcription of Python semantics, encoder.",
             "DESIGN.md 3.4, 5/C04"),
@@ -140,7 +141,8 @@ CLAIMED = {
             "every case written as properties and read eagerly and lazily (full, window, slice, chunks, index)",
             "Exhaustive enumeration within bounds (1-3 scales over Linear/Polynomial/Table/no-op/Add/Subtract with every "
             "input-source wiring, small-integer coefficients so float64 is exact, 3-10 raw types, placement and "
-            "shadowing across levels) with spec->code conformance of values, elementwise-ness and purity (raw data "
+            "shadowing across levels; sensor scales alone and with a linear scale, judged on purity / windows / dtype "
+            "only) with spec->code conformance of values, elementwise-ness and purity (raw data "
             "unchanged before/after, in place and via unscaled reads).",
             "Trusted: TLC, integer arithmetic of the spec as the exact value of the float evaluation (small integers), "
             "encoder. Integer wrap-around in Add/Subtract on raw unsigned data is not judged.",
@@ -166,7 +168,7 @@ CLAIMED = {
             "with an input built for its fault while /proc/self/fd and caller streams are inspected after each step",
             "Exhaustive model checking of the lifecycle state machine (read, read_metadata, open, data read, close, "
             "with-exit, repeated close, read after close, chunk generators resumed after close, the constructor with "
-            "keep_open, defragment, an interrupt while reading, writer with-block with normal and raising body, "
+            "keep_open, defragment of good and faulty inputs and into a missing directory, an interrupt while reading, writer with-block with normal and raising body, "
             "re-entered writer, write after the block) plus "
             "spec->code conformance of every behaviour: which descriptors on the scratch .tdms/.tdms_index files are "
             "open after each step, which calls raise, caller streams (BytesIO and real files) never closed.",
